@@ -161,10 +161,11 @@ def run(ctx):
     for (kind, tag), lst in sorted(r["mm"].items()):
         if kind != "spec":
             continue
-        for lbl, cmd, line in lst:
-            spec_jobs_ops.add((cmd, re.search(r"case=(\d+) op=(\d+)", line).group(0)))
-        lbl, cmd, line = lst[0]
         key = KEYS.get(tag)
+        if key is None:   # a model mismatch is only considered covered by a spec mismatch that is itself reported as a VIOLATION
+            for lbl, cmd, line in lst:
+                spec_jobs_ops.add((cmd, re.search(r"case=(\d+) op=(\d+)", line).group(0)))
+        lbl, cmd, line = lst[0]
         hist = history_of(cmd, line)
         n = sum(v for k, v in classes.items() if k.startswith("spec|") and k.endswith("|" + tag))
         what = WHAT.get(tag, "implementation differs from the documented rules (unclassified)")
@@ -193,16 +194,36 @@ def run(ctx):
     ctx.cov["api_scenarios"] = api[:60]
     if rc != 0 or not api:
         ctx.violation("API-level isolation scenario did not run", {"rc": rc, "tail": out[-800:]}, no_input=True)
-    bad = []        # explained by a prefix-of-prefix pair: the known finding F4
-    bad_other = []  # anything else
+    bad = []        # exactly the known finding F4 (see below)
+    bad_other = []  # anything else: a fresh violation, never keyed
+    node_files = {}
+    for l in api:
+        m = re.match(r"ISO (\S+) files (.*)", l)
+        if m:
+            node_files[m.group(1)] = [f[len("nodes/"):-len(".node_monitor")] for f in m.group(2).split() if f.startswith("nodes/") and f.endswith(".node_monitor")]
     for l in api:
         m = re.match(r"ISO (\S+) (nodes|services)-listed-by-(\d) prefix=(\S+) other=(\S+) -> (\S+) \[(.*)\]", l)
         if m:
             scen, what, who, prefix, other, okv, listed = m.groups()
             own = {"nodes": {"1": "alive:node-one", "2": "alive:node-two"}, "services": {"1": "svc-one", "2": "svc-two"}}[what][who]
             if okv != "true" or listed != own:
+                # F4 at API level = ALL of: the two prefixes are prefixes of one another; Node::list succeeded; the own
+                # node is listed with its details; every surplus entry is a detail-less alive ghost; and there are exactly
+                # as many ghosts as node files of the OTHER domain that our prefix/u128 parser accepts
+                # (file = other_prefix + id, file starts with our prefix, remainder is a decimal u128).
+                entries = listed.split(",") if listed else []
                 related = prefix != other and (prefix.startswith(other) or other.startswith(prefix))
-                (bad if related else bad_other).append(l)
+                files = node_files.get(scen, [])      # the node monitor files of BOTH domains (one node each)
+                def accepted(f, pfx):                 # what Node::list under prefix pfx takes for one of its nodes
+                    rest = f[len(pfx):]
+                    return f.startswith(pfx) and rest.isdigit() and int(rest) < 2 ** 128
+                mine = [f for f in files if accepted(f, prefix)]
+                exact = (related and what == "nodes" and okv == "true"
+                         and len(files) == 2 and all(accepted(f, prefix) or accepted(f, other) for f in files)
+                         and entries.count(own) == 1
+                         and all(e == "alive:?" for e in entries if e != own)
+                         and len(entries) == len(mine) and len(entries) >= 2)
+                (bad if exact else bad_other).append(l)
         m = re.match(r"ISO (\S+) does-exist-by-(\d) (\S+) -> (.*)", l)
         if m:
             scen, who, svc, resv = m.groups()
@@ -218,7 +239,7 @@ def run(ctx):
                        "scenario": "Config A: root R, prefix a_ ; Config B: root R, prefix a_1 ; each creates one node and one publish-subscribe service; "
                                    "then Node::list / Service::list / does_exist under each config"}, key=KEYS["isolation-prefix-of-prefix"])
     if bad_other:
-        ctx.violation("API-level isolation scenario: a domain does not list exactly its own node/service although the prefixes are unrelated: " + bad_other[0],
+        ctx.violation("API-level isolation scenario: a domain does not list exactly its own node/service and the deviation is NOT the known prefix-of-prefix ghost-node symptom: " + bad_other[0],
                       {"history": bad_other, "how_to_rerun": " ".join([exe, "iso", "-", "1", "0", "1", seed])}, key=None)
     # ---- executable whose file name FilePath accepts and FileName rejects (NodeDetails::new uses file_name())
     import shutil, tempfile
@@ -229,12 +250,21 @@ def run(ctx):
         rc, out = vlib.sh("'%s' iso - 1 0 1 %d 2>/dev/null" % (exe2, int(seed) + 1), timeout=600)
         l = [x for x in out.split("\n") if x.startswith("ISO api-disjoint nodes-listed-by-1")]
         ctx.cov["api_backslash_executable"] = l[:1]
-        if not l or "[alive:node-one]" not in l[0]:
-            ctx.violation(WHAT["unchecked-name"] + "; API level: a process whose executable file name contains a backslash creates a node whose details cannot be read back: Node::list -> " + (l[0] if l else "scenario did not run"),
-                          {"history": ["cp <harness> '<dir>/x\\y'", "'<dir>/x\\y' iso - 1 0 1 <seed>"] + l,
-                           "scenario": "NodeDetails::new stores Process::from_self().executable()?.file_name() (FileName::new_unchecked over the last FilePath component); "
-                                       "FilePath allows '\\', FileName does not, so deserialising the node details (FileName::new) fails in every process"},
-                          key=KEYS["unchecked-name"])
+        scen = ("NodeDetails::new stores Process::from_self().executable()?.file_name() (FileName::new_unchecked over the last FilePath component); "
+                "FilePath allows '\\', FileName does not, so deserialising the node details (FileName::new) fails in every process")
+        hist = ["cp <harness> '<dir>/x\\y'", "'<dir>/x\\y' iso - 1 0 1 <seed>"] + l
+        if len(l) == 1 and l[0].endswith("-> true [alive:node-one]"):
+            pass   # the name round-trips: nothing to report
+        elif (len(l) == 1 and l[0].endswith("-> true [alive:?]") and "\\" in os.path.basename(exe2)
+              and not any(x in bad + bad_other for x in api if x.startswith("ISO api-disjoint nodes-listed-by-1"))):
+            # exactly the known finding: the executable's file name is one FileName::new rejects (backslash), the own node
+            # is listed alive WITHOUT details and nothing else, and the same scenario under the normal executable name lists
+            # it WITH details (control run above) -- so the loss is due to the unchecked file_name() conversion
+            ctx.violation(WHAT["unchecked-name"] + "; API level: a process whose executable file name contains a backslash creates a node whose details cannot be read back: Node::list -> " + l[0],
+                          {"history": hist, "scenario": scen}, key=KEYS["unchecked-name"])
+        else:
+            ctx.violation("scenario with an executable named x\\y: unexpected Node::list result (not the known unchecked-name symptom): " + (l[0] if l else "scenario did not run, rc=%s" % rc),
+                          {"history": hist, "scenario": scen, "tail": out[-600:]}, key=None, no_input=not l)
     finally:
         shutil.rmtree(d, ignore_errors=True)
     ctx.cov["samples"] = samples[:8]
